@@ -532,7 +532,10 @@ func (w *world) querier(x *execution, i int) {
 
 type finding struct{ class, detail string }
 
-var numRe = regexp.MustCompile(`[0-9]+`)
+var (
+	numRe = regexp.MustCompile(`[0-9]+`)
+	bigRe = regexp.MustCompile(`[0-9a-f]{6,}`)
+)
 
 // rel rewrites the numbers h, h+1, h+2 of an answer as H+0, H+1, H+2 (observation keys must not depend on how long the
 // chain already is).
@@ -559,7 +562,19 @@ func (w *world) judge(x *execution) (fs []finding, obsKey string) {
 	h := x.p.e.h
 	for _, l := range x.obs {
 		for _, o := range l {
-			ob = append(ob, fmt.Sprintf("%s.%s[+%d..+%d/%d]=%s", o.Thread, o.Q, o.Entry-h, o.ExitPub-h, o.Exit-h, clip(rel(o.Ans, h), 80)))
+			// canonical form: which single-height reference answer it equals, else the answer with epoch-dependent
+			// numbers masked
+			lab := ""
+			for L := 0; L <= 2; L++ {
+				if x.p.refA[o.Q][L] == o.Ans {
+					lab = fmt.Sprintf("REF@H+%d", L)
+					break
+				}
+			}
+			if lab == "" {
+				lab = clip(bigRe.ReplaceAllString(rel(o.Ans, h), "#"), 80)
+			}
+			ob = append(ob, fmt.Sprintf("%s.%s[entry H+%d, exit H+%d(published)/H+%d(committed)]=%s", o.Thread, o.Q, o.Entry-h, o.ExitPub-h, o.Exit-h, lab))
 		}
 	}
 	obsKey = strings.Join(ob, " | ")
@@ -918,8 +933,14 @@ func workerMain(arg string) {
 	deadline := time.Now().Add(time.Duration(bs) * time.Second)
 	ws := worlds{}
 	var out []jobResult
-	for _, f := range strings.Split(parts[0], ",") {
+	ids := strings.Split(parts[0], ",")
+	for n, f := range ids {
 		si, _ := strconv.Atoi(f)
+		// share the remaining budget evenly among the remaining scenarios
+		deadline := deadline
+		if tier == "t" {
+			deadline = time.Now().Add(time.Until(deadline) / time.Duration(len(ids)-n))
+		}
 		sc := &scenarios[si]
 		bound := sc.bound[0]
 		if tier == "t" {
@@ -1040,9 +1061,12 @@ func main() {
 		replayFile(r)
 		return
 	}
-	r.SetBudget(240*time.Second, 25*time.Minute)
+	r.SetBudget(600*time.Second, 25*time.Minute) // soft safety nets; an unloaded 16-core box needs ~2 min for quick
 	// scenarios are spread over a few worker processes (one exploration at a time per process; an app start is expensive)
-	groups := [][]int{{0, 4}, {1, 3}, {2}, {5, 6}}
+	groups := [][]int{{0, 4}, {1, 3}, {2, 5}} // quick: the 3-thread scenario (index 6) runs in thorough only
+	if r.Thorough() {
+		groups = [][]int{{0}, {1}, {2}, {3}, {4}, {5}, {6}}
+	}
 	if *only >= 0 {
 		groups = [][]int{{*only}}
 	}
